@@ -56,7 +56,7 @@ func (s *Sim) check(what string) {
 			r.Fail("chan-removed", "%s: channel %s left the graph although its funding output %v is unspent and no pruning was due",
 				what, scidStr(scid), o.outpoint)
 		}
-		r.Logf("  graph: channel %s removed (funding output spent)", scidStr(scid))
+		logf(r, "  graph: channel %s removed (funding output spent)", scidStr(scid))
 		r.Count("graph_chan_removed_spent")
 	}
 
@@ -171,7 +171,7 @@ func (s *Sim) justifyChanAdd(c *pChan, what string) {
 	if !bytes.Equal(c.node[0][:], m.node1) || !bytes.Equal(c.node[1][:], m.node2) {
 		r.Fail("chan-unjustified", "%s: channel %s stored under node keys other than the announced ones", what, id)
 	}
-	r.Logf("  graph: + channel %s from [%s] cap=%d", id, mi.label, c.capacity)
+	logf(r, "  graph: + channel %s from [%s] cap=%d", id, mi.label, c.capacity)
 	r.Count("graph_chan_added")
 	s.applied++
 }
@@ -208,7 +208,7 @@ func (s *Sim) justifyPolicy(c *pChan, d int, old, cur *pPolicy, what string) {
 	if cur.ts != m.ts {
 		r.Fail("policy-unjustified", "%s: policy %s timestamp %d differs from the update's %d", what, id, cur.ts, m.ts)
 	}
-	r.Logf("  graph: policy %s <- [%s] ts=%d", id, mi.label, m.ts)
+	logf(r, "  graph: policy %s <- [%s] ts=%d", id, mi.label, m.ts)
 	r.Count("graph_policy_applied")
 	if old != nil {
 		r.Count("graph_policy_replaced")
@@ -238,7 +238,7 @@ func (s *Sim) justifyNode(n, old *pNode, before, after *projection, what string)
 	if !before.hasEndpoint(n.key) && !after.hasEndpoint(n.key) {
 		r.Fail("node-without-channel", "%s: node %s accepted from [%s] although it has no known channel", what, id, mi.label)
 	}
-	r.Logf("  graph: node %s <- [%s] ts=%d", id, mi.label, m.ts)
+	logf(r, "  graph: node %s <- [%s] ts=%d", id, mi.label, m.ts)
 	r.Count("graph_node_applied")
 	s.applied++
 }
